@@ -60,7 +60,11 @@ def main():
                 res = getattr(client, spec["method"])(requests=iter([D.build_message(cls, b) for b in r["stream"]]))
             else:
                 res = getattr(client, spec["method"])(request=D.build_message(cls, r["b64"]))
-            rec["result"] = [D.encode_value(res)]
+            if spec.get("consume") == "stream":     # server-streaming: the call returns an iterator over the JSON array reply
+                rec["result"] = [{"kind": "stream", "type": type(res).__module__ + "." + type(res).__name__,
+                                  "items": [D.encode_value(x) for x in res]}]
+            else:
+                rec["result"] = [D.encode_value(res)]
         except Exception as e:  # noqa
             rec["ok"] = False
             rec["error"] = D.exc_info(e)
